@@ -115,13 +115,17 @@ def step (st : St) (line : String) : St × String :=
       let excl := if op = .read then excl else []
       let ctx : Ctx := { fabrics := st.acl.fabrics, accessor := acc, timed := (op ≠ .read) && timed = "1",
                          filter := fun e c l => !(excl.contains (e, c, l)) }
-      let model := fmtOuts op (expand ctx op st.node paths FUEL)
+      -- `Props/C06.expand_terminates`: on a node with sorted endpoints the run has ended after
+      -- `fuelBound` calls of `next` (more fuel changes nothing); the constant cap only guards nodes
+      -- that violate the invariant (there the real code panics / the scan may revisit endpoints)
+      let sorted : Bool := decide ((st.node.map (·.id)).Pairwise (· < ·))
+      let fuel := if sorted then fuelBound op st.node paths else FUEL
+      let model := fmtOuts op (expand ctx op st.node paths fuel)
       let inScope := nodeWF st.node &&
         st.acl.fabrics.all (fun f => f.acl.all (fun e => Driver.C05.canonicalPriv e.privilege))
       let spec := fmtOuts op (expected ctx op st.node paths)
       -- `resume_endpoint_index` debug-asserts `Node`'s documented invariant (endpoints strictly
       -- ascending); a panic on a node violating it is the stated precondition, not a finding
-      let sorted : Bool := decide ((st.node.map (·.id)).Pairwise (· < ·))
       if out.startsWith "panic" && !sorted then (st, "ok")
       else if out.startsWith "panic" ∨ (out.splitOn "HANG").length > 1 then (st, s!"ORA {out}")
       else if inScope && spec ≠ out then (st, s!"ORA spec=[{spec}]")
